@@ -249,7 +249,13 @@ impl World {
         let real = self.apply_real(op, &r);
         let (events, heap_viol): (Vec<Event>, Vec<shadow::HeapViolation>) =
             shadow::with(|h| (h.events.clone(), std::mem::take(&mut h.violations)));
-        let requests = events.iter().filter(|e| e.kind != EvKind::Dealloc).count();
+        // requests of the crate's own buffer management, plus (where measurable) any other heap allocation made
+        // inside the call
+        let other_allocs = self.last_other_allocs.unwrap_or(0) as usize;
+        let requests = events.iter().filter(|e| e.kind != EvKind::Dealloc).count() + other_allocs;
+        if other_allocs > 0 {
+            ctx.class(format!("other_allocs.{}", op.name()));
+        }
         let fault_refusals = events.iter().filter(|e| matches!(e.kind, EvKind::FaultAlloc | EvKind::FaultRealloc)).count();
         let giant_refusals = events.iter().filter(|e| matches!(e.kind, EvKind::GiantAlloc | EvKind::GiantRealloc)).count();
         let refusals = fault_refusals + giant_refusals;
